@@ -6,7 +6,7 @@ import re
 from hypothesis import strategies as st
 
 from vlib.core import SubCheck, Violation, Outcome
-from vlib import argv_gen, cli, catalog, names
+from vlib import argv_gen, cli, catalog, names, tt
 from vlib import graphs_gen as gg
 
 PROPERTY = "C17"
@@ -453,6 +453,49 @@ def run_text(case):
             opts = case['opts']
             r = cli.run_main('cnfgen', opts + base)
             what = "cnfgen {}".format(' '.join(opts + base))
+        elif mode == 'options-opb':
+            # the same options on OPB output: pbgen, or cnfgen -of opb
+            from cnfgen.formula.opb import OPB
+            from vlib import rd_opb
+            f = catalog.FAMILIES[case['fam']]
+            p = case['p']
+            base = [f.name] + [str(x) for x in f.argv(p, ctx)]
+            tool = case['tool']
+            opts = case['opts']
+            Flib = f.lib(p, OPB if tool == 'pbgen' else CNF)
+            r = cli.run_main(tool, opts + ([] if tool == 'pbgen' else ['-of', 'opb']) + base)
+            what = "{} {}".format(tool, ' '.join(opts + ([] if tool == 'pbgen' else ['-of', 'opb']) + base))
+            if r.exc is not None or r.code != 0:
+                raise Violation("{}: fails (exit {}, {!r}, stderr {!r})".format(what, r.code, r.exc, r.err[:300]))
+            doc = rd_opb.read_opb(r.out)
+            if doc.errors:
+                raise Violation("{}: a printed line is neither a comment nor a constraint: {}".format(what, doc.errors[0]))
+            if doc.declared_variables != Flib.number_of_variables() or doc.declared_constraints != len(doc.constraints):
+                raise Violation("{}: the OPB text declares {} variables / {} constraints, the library formula has {} variables and the text {} constraints".format(
+                    what, doc.declared_variables, doc.declared_constraints, Flib.number_of_variables(), len(doc.constraints)))
+            n = Flib.number_of_variables()
+            if n <= 18:
+                rows = [[(c, -v if neg else v) for (c, v, neg) in terms] + ['==' if rel == '=' else rel, deg] for (terms, rel, deg) in doc.constraints]
+                if tt.opb_tt(n, rows) != tt.formula_tt(Flib):
+                    raise Violation("{}: the printed constraints are not equivalent to the library formula".format(what))
+            quiet = '-q' in opts or '--quiet' in opts
+            vn, other = {}, []
+            for c in doc.comments:
+                mm = re.match(r'^\* varname x([1-9][0-9]*) (.*)$', c)
+                if mm:
+                    vn[int(mm.group(1))] = mm.group(2)
+                elif c.strip() != '*':
+                    other.append(c)
+            if quiet and other:
+                raise Violation("{}: quiet output still contains header lines: {}".format(what, other[:2]))
+            if not quiet and not any(c.startswith('* description:') for c in other):
+                raise Violation("{}: verbose output lacks the header".format(what))
+            labs = list(Flib.all_variable_labels())
+            if '--varnames' in opts and vn != {i + 1: l for i, l in enumerate(labs)}:
+                raise Violation("{}: '* varname' lines {} do not list the names {}".format(what, sorted(vn.items())[:3], labs[:3]))
+            if '--varnames' not in opts and vn:
+                raise Violation("{}: variable names printed although not asked for".format(what))
+            return Outcome(labels=[mode, tool] + opts, nontrivial=len(doc.constraints) >= 1)
         elif mode == 'k2p':
             D = case['D']
             path = ctx.path('kthlist')
@@ -539,7 +582,7 @@ def enum_text(tier):
 
 @st.composite
 def strat_text(draw):
-    mode = draw(st.sampled_from(['options', 'options', 'k2p', 'dimacs', 'cnfshuffle']))
+    mode = draw(st.sampled_from(['options', 'options', 'options-opb', 'k2p', 'dimacs', 'cnfshuffle']))
     small = st.builds(lambda n, cl: {'n': n, 'clauses': [[l for l in c if abs(l) <= n] for c in cl]},
                       st.integers(1, 5),
                       st.lists(st.lists(st.integers(-5, 5).filter(lambda x: x != 0), max_size=3), max_size=5))
@@ -547,6 +590,12 @@ def strat_text(draw):
         inv = draw(catalog.invocations(deterministic_only=True))
         inv['mode'] = mode
         inv['opts'] = draw(st.sampled_from([[], ['-q'], ['-v'], ['--varnames'], ['-q', '--varnames'], ['-of', 'dimacs'], ['--quiet']]))
+        return inv
+    if mode == 'options-opb':
+        inv = draw(catalog.invocations(deterministic_only=True))
+        inv['mode'] = mode
+        inv['tool'] = draw(st.sampled_from(['pbgen', 'cnfgen']))
+        inv['opts'] = draw(st.sampled_from([[], ['-q'], ['-v'], ['--varnames'], ['-q', '--varnames'], ['-q', '--varnames'], ['--quiet']]))
         return inv
     if mode == 'k2p':
         return {'mode': mode, 'D': draw(catalog.dag_g(1, 7, 12)), 'opts': draw(st.sampled_from([[], ['-q']])),
@@ -572,8 +621,8 @@ SUBCHECKS = [
              rule="php M N D, tseitin N d, tseitin random|randomodd|randomeven G, op N d, subsetcard N d, stone s D --sparse d; 'tseitin random G' over the seeds 0..15 (both parities of the total charge and at least 4 different charge vectors must occur); oracle: the graph / charges recovered from names and clauses have the documented shape (regularity, sizes, parity) and the formula equals the library formula on them",
              required_labels=['php', 'tseitinNd', 'tseitin-random', 'opNd', 'subsetcardNd', 'stone', 'tseitin-random-spread']),
     SubCheck('text', run_text, strategy=strat_text, enumerate_cases=enum_text, quick=500, thorough=20000,
-             rule="cnfgen -q/-v/--varnames on DIMACS output, 'cnfgen dimacs' (file and stdin), kthlist2pebbling (stdin and -i, with a transformation) versus 'cnfgen peb', cnfshuffle with all permutations off; the stdin-reading ones also as real processes fed through a pipe (enumerated); oracle: the printed clauses are the library formula, -q prints no comment line, verbose prints the header, --varnames lists the names",
-             required_labels=['options', 'k2p', 'dimacs', 'cnfshuffle', '-q', '--varnames', 'stdin', 'file']),
+             rule="cnfgen -q/-v/--varnames on DIMACS output, the same options (alone and together) on the OPB text of pbgen and of cnfgen -of opb (read by the harness's OPB reader), 'cnfgen dimacs' (file and stdin), kthlist2pebbling (stdin and -i, with a transformation) versus 'cnfgen peb', cnfshuffle with all permutations off; the stdin-reading ones also as real processes fed through a pipe (enumerated); oracle: the printed clauses are the library formula, -q prints no comment line, verbose prints the header, --varnames lists the names",
+             required_labels=['options', 'options-opb', 'k2p', 'dimacs', 'cnfshuffle', '-q', '--varnames', 'stdin', 'file']),
 ]
 
 
@@ -615,7 +664,14 @@ def run_saved(case):
     with catalog.Ctx() as ctx:
         gtype = case['gtype']
         path = ctx.path('matrix' if gtype == 'bipartite' else 'kthlist')
-        args = ['--seed', str(seed), name] + pre + spec + ['save', 'matrix' if gtype == 'bipartite' else 'kthlist', path] + case.get('post', [])
+        save = ['save', 'matrix' if gtype == 'bipartite' else 'kthlist', path]
+        mods = [i for i, t in enumerate(spec) if t in ('plantclique', 'plantbiclique', 'addedges', 'splitedges')]
+        at = len(spec)
+        if case.get('save_at') == 'first' and mods:
+            at = mods[0]                 # the options of a graph argument may come in any order: what is saved is the graph used
+        elif case.get('save_at') == 'second' and len(mods) >= 2:
+            at = mods[1]
+        args = ['--seed', str(seed), name] + pre + spec[:at] + save + spec[at:] + case.get('post', [])
         try:
             F = cli.build(tool, args)
         except CLIError:
@@ -660,6 +716,8 @@ def run_saved(case):
             Flib = cnfgen.StoneFormula(G, k, formula_class=cls)
         same_formula(F, Flib, what)
     labels = [tool, name, 'saved'] + [t for t in spec if t in ('plantclique', 'addedges', 'splitedges', 'plantbiclique')]
+    if at < len(spec):
+        labels.append('save-before-a-modifier')
     return Outcome(labels=labels, nontrivial=len(F) >= 2)
 
 
@@ -679,10 +737,10 @@ def strat_saved(draw):
     if name in ('op', 'iso') and spec[0] == 'gnp' and len(spec) > 3 and spec[3].isdigit():
         pass
     return {'tool': draw(st.sampled_from(['cnfgen', 'pbgen'])), 'name': name, 'pre': pre, 'gtype': gtype, 'spec': spec,
-            'seed': draw(st.integers(0, 10 ** 5))}
+            'seed': draw(st.integers(0, 10 ** 5)), 'save_at': draw(st.sampled_from(['last', 'last', 'first', 'second']))}
 
 
 SUBCHECKS.append(
     SubCheck('saved', run_saved, strategy=strat_saved, quick=500, thorough=20000,
-             rule="twelve graph-taking sub-commands with random and deterministic graph constructions plus every modifier (plantclique, plantbiclique, addedges, splitedges) and 'save <format> <file>'; oracle: the saved file, read by the harness's own reader, is the graph the formula was built on: the tool's formula equals the library formula on that graph; non-trivial: >=2 rows",
-             required_labels=['saved', 'splitedges', 'addedges', 'plantclique', 'plantbiclique', 'php', 'peb']))
+             rule="twelve graph-taking sub-commands with random and deterministic graph constructions plus every modifier (plantclique, plantbiclique, addedges, splitedges) and 'save <format> <file>' written last or, in half of the cases, before the first or second modifier; oracle: the saved file, read by the harness's own reader, is the graph the formula was built on: the tool's formula equals the library formula on that graph; non-trivial: >=2 rows",
+             required_labels=['saved', 'splitedges', 'addedges', 'plantclique', 'plantbiclique', 'php', 'peb', 'save-before-a-modifier']))
